@@ -860,3 +860,69 @@ BOM_SOURCES = [
     BOM + "\n" + BOM + "return 1\n", "return '" + BOM + "'\n", "local s = [[" + BOM + "]] -- " + BOM + "\nreturn s\n",
     "#!/usr/bin/lua\n" + BOM + "return 1\n", "#!/usr/bin/lua\nreturn 1\n", BOM + "#!/usr/bin/lua\nreturn 1\n",
 ]
+
+
+# ---- last token of every node kind (mirror of "every statement kind as first statement"): files whose LAST code
+# token belongs to each expression / type / statement kind that has a `mutate_last_token` in src/nodes
+
+LAST_EXPRESSIONS = [
+    ("if-expression", "if a then b else %M"),
+    ("if-expression, lines", "if a then\n  %M\nelse\n  %M"),
+    ("if-expression elseif chain", "if a then %M elseif c then\n %M elseif d then e else\n %M"),
+    ("if-expression nested in else", "if a then %M else if c then %M else %M"),
+    ("if-expression in then", "if a then if b then %M else %M else\n %M"),
+    ("binary with if-expression on the right", "%M + if c then %M else %M"),
+    ("binary chain", "%M + b *\n %M"), ("concat chain", "a .. %M ..\n %M"), ("and / or", "a and %M or %M"),
+    ("comparison", "%M <= %M"), ("unary not", "not %M"), ("unary minus", "- %M"), ("length", "# %M"),
+    ("call", "f(%M)"), ("call no argument", "%M()"), ("call table", "f{ %M }"), ("call string", "f'%S'"),
+    ("call long string", "%M[[x]]"), ("call of call", "f(%M)(%M)"),
+    ("method call", "o:m(%M)"), ("method call table", "o:m{ %M }"), ("method call string", "o:m'%S'"),
+    ("index", "t[%M]"), ("field", "t.x.%M"), ("parenthesised", "(%M)"), ("parenthesised binary", "(a + %M)"),
+    ("type cast name", "%M :: any"), ("type cast table type", "%M :: { x: number }"), ("type cast function type", "%M :: (number) -> string"),
+    ("type cast optional", "%M :: number?"), ("type cast union", "%M :: A | B"), ("type cast generic", "%M :: Map<string, number>"),
+    ("type cast typeof", "x :: typeof(%M)"), ("type cast array", "%M :: { number }"), ("type cast field", "%M :: a.B"),
+    ("type instantiation", "f<<number>>(%M)"),
+    ("function expression", "function() return %M end"), ("function expression, lines", "function(a)\n  return %M\nend"),
+    ("table", "{ %M }"), ("table entries", "{ x = %M, [1] = %M; }"), ("empty table", "{}"),
+    ("interpolated ending in a hole", "`a{%M}`"), ("interpolated ending in text", "`a{%M}b`"), ("interpolated plain", "`%M`"),
+    ("varargs", "..."), ("string", "'%S'"), ("long string", "[[\n%M\n]]"), ("number", "%M + 1"), ("nil", "%M or nil"), ("true", "%M == true"),
+]
+LAST_WRAPPERS = ["return %E", "local x = %E", "x = %E", "x.y, z = 1, %E", "f(%E)", "f(1, %E)", "x += %E", "local t = { %E }",
+                 "local a, b = %M, %E", "o:m(%E)", "repeat until %E", "return %M, %E"]
+LAST_STATEMENTS = [
+    ("while", "while %M do f(%M) end"), ("repeat", "repeat f() until %M"), ("numeric for", "for i = 1, %M do end"),
+    ("generic for", "for k in %M do end"), ("if", "if %M then f() end"), ("if else", "if a then f() else g(%M) end"),
+    ("do", "do f(%M) end"), ("function", "function g() return %M end"), ("local function", "local function g() return %M end"),
+    ("local without value", "local x, y"), ("local typed", "local x: number"), ("local typed generic", "local x: Map<string, { number }>"),
+    ("type declaration", "type T = number"), ("type function type", "type F = (number) -> (string, ...number)"),
+    ("type union", "type U = 'a' | 'b' | nil"), ("type table", "type R = { x: number, [string]: boolean }"),
+    ("type optional", "type O = number?"), ("type intersection", "type I = A & B"), ("type typeof", "type Y = typeof(%M)"),
+    ("export type generic", "export type P<K, V = string> = { [K]: V }"),
+    ("break", "while %M do break end"), ("continue", "for i = 1, %M do continue end"), ("return nothing", "do return end"),
+    ("compound", "x.y ..= %M"), ("call statement string", "require '%S'"), ("call statement table", "setup { %M }"),
+]
+
+
+def _fill(text, counter):
+    while "%M" in text or "%S" in text:
+        i = min(k for k in (text.find("%M"), text.find("%S")) if k >= 0)
+        counter[0] += 1
+        text = text[:i] + "M%d" % counter[0] + text[i + 2:]
+    return text
+
+
+def last_token_sources():
+    """[(label, source)]: marker programs whose last code token belongs to each node kind"""
+    out = []
+    for i, (label, e) in enumerate(LAST_EXPRESSIONS):
+        for k in range(2):
+            w = LAST_WRAPPERS[(2 * i + k) % len(LAST_WRAPPERS)]
+            n = [0]
+            src = _fill("print(%M)\nlocal k = %M\n\n" + w.replace("%E", e), n)
+            src += "\n" if (i + k) % 2 else ""
+            out.append(("%s in `%s`" % (label, w), src))
+    for i, (label, s) in enumerate(LAST_STATEMENTS):
+        n = [0]
+        src = _fill("print(%M)\nlocal k = %M\n\n" + s, n) + ("\n" if i % 2 else "")
+        out.append(("last statement: " + label, src))
+    return out
